@@ -11,6 +11,8 @@ pub struct Mon {
     /// spot price of each vAMM at the first moment of the current block (= end of the previous block)
     pref: Vec<u128>,
     interesting: u64,
+    /// spot price that closing the caller's whole position would leave, computed from the pre-state (OutputAmount answer)
+    whole_close_price: Option<u128>,
 }
 
 /// lenient integer band: [floor(p*(D-l)/D), ceil(p*(D+l)/D)]
@@ -23,6 +25,26 @@ fn band(p: u128, l: u128, d: u128) -> (u128, u128) {
 impl Monitor for Mon {
     fn begin(&mut self, w: &mut World, _out: &mut Outcome) {
         self.pref = (0..w.vamms.len()).map(|v| w.spot(v)).collect();
+    }
+    fn before(&mut self, it: &mut crate::hist::Interp, act: &Act, pre: &crate::hist::Obs, _out: &mut Outcome) -> Option<Violation> {
+        self.whole_close_price = None;
+        if let Act::Close { t, v, .. } = act {
+            if let Some(p) = pre.pos[*v][*t].as_ref().filter(|p| !p.size.is_zero()) {
+                let long = !p.size.is_negative();
+                let dir = if long { margined_perp::margined_vamm::Direction::AddToAmm } else { margined_perp::margined_vamm::Direction::RemoveFromAmm };
+                if let Some(q) = it.output_amount(*v, dir, p.size.value.u128()) {
+                    let st = &pre.v[*v].state;
+                    let (x, y, sz) = (st.quote_asset_reserve.u128(), st.base_asset_reserve.u128(), p.size.value.u128());
+                    let (x1, y1) = if long { (x.checked_sub(q), y.checked_add(sz)) } else { (x.checked_add(q), y.checked_sub(sz)) };
+                    if let (Some(x1), Some(y1)) = (x1, y1) {
+                        if y1 > 0 {
+                            self.whole_close_price = Some(mul_div_floor(x1, it.w.d, y1));
+                        }
+                    }
+                }
+            }
+        }
+        None
     }
     fn after(&mut self, w: &World, s: &Step, out: &mut Outcome) -> Option<Violation> {
         let d = w.d;
@@ -83,6 +105,11 @@ impl Monitor for Mon {
                 }
                 match s.effect {
                     Effect::Closed => {
+                        let hi_e = mul_div_floor(self.pref[v], d + l, d);
+                        let lo_e = mul_div_floor(self.pref[v], d.saturating_sub(l), d);
+                        if spot1 == hi_e || spot1 == lo_e || spot1 == lo_e + 1 {
+                            out.count("whole_close_landing_on_band_edge");
+                        }
                         if spot1 < lo || spot1 > hi {
                             let long = s.pre.pos[v][*t].as_ref().map(|p| !p.size.is_negative()).unwrap_or(false);
                             return Some(
@@ -95,6 +122,24 @@ impl Monitor for Mon {
                         }
                     }
                     Effect::PartialClosed | Effect::None => {
+                        // "otherwise": only the fraction is closed because closing everything would have left the band. If the
+                        // whole close would have landed inside the exact band (edges included) the position had to be closed whole.
+                        if let Some(pw) = self.whole_close_price {
+                            let p0 = self.pref[v];
+                            let rem = (cosmwasm_std::Uint256::from(p0) * cosmwasm_std::Uint256::from(d.saturating_sub(l))) % cosmwasm_std::Uint256::from(d);
+                            let lo_e = mul_div_floor(p0, d.saturating_sub(l), d) + if rem.is_zero() { 0 } else { 1 };
+                            let hi_e = mul_div_floor(p0, d + l, d);
+                            out.count("partial_close_decision_checks");
+                            if pw == lo_e || pw == hi_e {
+                                out.count("whole_close_price_exactly_on_band_edge");
+                            }
+                            if pw >= lo_e && pw <= hi_e {
+                                return Some(Violation::new(
+                                    "partial_close_although_whole_close_stays_in_band",
+                                    format!("ClosePosition closed only a fraction although closing the whole position would have left spot at {} inside [{}, {}] (reference {}, limit {})", pw, lo_e, hi_e, p0, l),
+                                ));
+                            }
+                        }
                         let (p0, p1) = (s.pre.pos[v][*t].as_ref()?, s.post.pos[v][*t].as_ref()?);
                         let (a, b) = (p0.size.value.u128(), p1.size.value.u128());
                         let exp = mul_div_floor(a, frac, d);
@@ -143,6 +188,9 @@ pub fn prop() -> HistProp {
     w.ecfg = 2;
     // the owner closes / re-opens markets in between (the band's reference is still the previous block's final price)
     w.setopen = 2;
+    // whale orders sized so that the following whole close lands on the band's edge
+    w.edge_close = 4;
+    w.vcfg = 2;
     HistProp {
         id: "C15",
         level: "exploration",
